@@ -25,6 +25,12 @@ type VerifCADelegate12 struct {
 	Index uint64
 	DC    string
 	OnCA  func(idx uint64, req *structs.CARequest, resp interface{})
+	// PreCA runs when the CAManager / provider hands a prepared request to "Raft", before
+	// anything is applied: the harness samples the store there (nothing may have changed since
+	// the last applied command) and may inject a fault: handled=true makes ApplyCARequest
+	// return (resp, err) without applying anything (apply failure, or a refused conditional
+	// write); the hook may also apply a competing write first and let the request lose its CAS.
+	PreCA func(req *structs.CARequest) (resp interface{}, err error, handled bool)
 }
 
 func VerifNewCADelegate12(dc string, startIndex uint64) *VerifCADelegate12 {
@@ -63,6 +69,11 @@ func (d *VerifCADelegate12) ApplyCARaw(req *structs.CARequest) (uint64, interfac
 }
 
 func (d *VerifCADelegate12) ApplyCARequest(req *structs.CARequest) (interface{}, error) {
+	if d.PreCA != nil {
+		if resp, err, handled := d.PreCA(req); handled {
+			return resp, err
+		}
+	}
 	_, resp := d.ApplyCARaw(req)
 	if err, ok := resp.(error); ok {
 		return nil, err
